@@ -3,7 +3,11 @@ epochOnHeap) with NeuralStateBase._shuffle_data / fit / extract_refbasis_samples
 
 The real `fit` runs with torch.randperm / torch.randint wrapped in-process (results recorded and handed to the model),
 `compute_batch_gradients` wrapped on the instance (arguments copied, storage pointers noted), and the caller's data /
-bases objects compared before and after (bytes and identity)."""
+bases objects compared before and after (bytes and identity).
+
+A case is a SESSION: one state object and one or more consecutive `fit` calls on it. Each call has its own data
+(container form incl. non-contiguous views), bases (new object / the same object again / the same object edited in place),
+batch sizes and epochs; every batch of every call is compared with the model fed the data of THAT call."""
 import collections
 import copy
 
@@ -18,12 +22,15 @@ FILES = [
 ]
 REQUIRED_THEOREMS = ["C07_partition", "C07_own_basis", "C07_sizes", "C07_zip_truncation", "C07_negative", "C07_refbasis",
                      "C07_fit_batches", "C07_no_mutation"]
-RULE = ("case = (state kind [positive: no bases; complex/density: bases], n, N, pos_batch_size B, neg_batch_size in "
-        "{None, 0, B, other}, epochs 1..3, data container in {tensor(double/float32/int64/uint8), ndarray(float64/int64), list}, "
-        "rows 0/1 with forced duplicates, bases over {X,Y,Z} with >= 1 all-Z row); covers N < B, N = mB, N = mB + r; thorough "
-        "enumerates N <= 12 x B <= 13 x neg in {None, B, other}; plus a malformed stream (B = 0, no reference-basis row, bases of "
-        "the wrong length) and direct `_shuffle_data` calls with arbitrary num_batches; non-trivial iff N >= 2 and the recorded "
-        "permutation is not the identity; distinct by hash of the case")
+RULE = ("case = session on one state object (kind [positive: no bases; complex/density: bases], n) of 1..3 consecutive fit calls, "
+        "each call = (N, pos_batch_size B, neg_batch_size in {None, 0, B, other incl. > B and > N}, epochs 1..3, data container in "
+        "{tensor(double/float32/int64/uint8), non-contiguous tensor views (transposed / strided with offset), ndarray(float64/"
+        "float32/int64, Fortran order, strided view), list, tuple}, rows 0/1 with forced duplicates, bases over {X,Y,Z} with >= 1 "
+        "all-Z row as C-order / Fortran-order / strided-view array; data object and bases object of a later call: new / the same "
+        "object again / the same object overwritten in place); covers N < B, N = mB, N = mB + r; thorough enumerates single calls "
+        "N <= 12 x B <= 13 x neg in {None, B, other}; plus a malformed stream (B = 0, no reference-basis row, bases of the wrong "
+        "length, also as the second call of a session) and direct `_shuffle_data` calls with arbitrary num_batches; non-trivial "
+        "iff N >= 2 and a recorded permutation is not the identity; distinct by hash of the case")
 EXTRA_TRUSTED = [
     "C07: torch.randperm(N) returns a permutation of 0..N-1 and torch.randint(high, size) returns `size` values below `high` "
     "(checked on every recorded call); advanced indexing / slicing semantics of torch and numpy as modelled by takeRows / slices; "
@@ -42,12 +49,60 @@ def make_state(kind, n, rng):
 
 
 def container(data, form):
+    """the caller's data object in the given container form (same values in every form)"""
     if form == "list":
         return copy.deepcopy(data)
+    if form == "tuple":
+        return tuple(tuple(r) for r in data)
+    N, n = len(data), len(data[0])
     if form.startswith("ndarray"):
-        return np.array(data, dtype={"ndarray_f64": np.float64, "ndarray_i64": np.int64}[form])
-    dt = {"tensor_f64": torch.double, "tensor_f32": torch.float32, "tensor_i64": torch.int64, "tensor_u8": torch.uint8}[form]
+        kind = form[len("ndarray_"):]
+        if kind == "f64_fortran":
+            return np.asfortranarray(np.array(data, dtype=np.float64))
+        if kind == "i64_strided":  # every second row of a bigger array, first column skipped: non-contiguous view with offset
+            big = np.full((2 * N, n + 1), 7, dtype=np.int64)
+            v = big[::2, 1:]
+            v[...] = np.array(data, dtype=np.int64)
+            return v
+        return np.array(data, dtype={"f64": np.float64, "f32": np.float32, "i64": np.int64}[kind])
+    kind = form[len("tensor_"):]
+    if kind == "f64_t":  # column-major (transposed) view
+        return torch.tensor(data, dtype=torch.double).t().contiguous().t()
+    if kind in ("f64_strided", "i64_strided"):
+        dt = torch.double if kind[0] == "f" else torch.int64
+        big = torch.full((2 * N, n + 1), 7, dtype=dt)
+        v = big[::2, 1:]
+        v.copy_(torch.tensor(data, dtype=dt))
+        return v
+    dt = {"f64": torch.double, "f32": torch.float32, "i64": torch.int64, "u8": torch.uint8}[kind]
     return torch.tensor(data, dtype=dt)
+
+
+def overwrite(obj, data):
+    """write new content of the same shape into the caller's existing data object; False if not possible"""
+    if isinstance(obj, torch.Tensor):
+        obj.copy_(torch.tensor(data, dtype=obj.dtype))
+        return True
+    if isinstance(obj, np.ndarray):
+        obj[...] = np.array(data, dtype=obj.dtype)
+        return True
+    if isinstance(obj, list):
+        for row, new in zip(obj, data):
+            row[:] = new
+        return True
+    return False
+
+
+def bases_container(bases, form):
+    a = np.array(bases)
+    if form == "fortran":
+        return np.asfortranarray(a)
+    if form == "strided":
+        big = np.full((2 * a.shape[0], a.shape[1] + 1), "Q", dtype=a.dtype)
+        v = big[::2, 1:]
+        v[...] = a
+        return v
+    return a
 
 
 def snapshot(obj):
@@ -166,21 +221,73 @@ def property_oracle(data, bases, B, negB_eff, mirror, ep):
     return True, None
 
 
-# ------------------------------------------------------------------ one fit case
+# ------------------------------------------------------------------ one session = consecutive fit calls on one state object
+RUN_KEYS = ("N", "B", "neg", "epochs", "form", "data", "bases", "malformed")
+
+
+def as_session(case):
+    """old single-fit cases (corpus, earlier replays) are sessions of one call"""
+    if "runs" in case:
+        return case
+    run = {k: case[k] for k in RUN_KEYS if k in case}
+    return {"kind": case["kind"], "n": case["n"], "runs": [run], "dseed": case["dseed"], "what": "fit"}
+
+
 def one_fit(ctx, case):
     import random
 
+    case = as_session(case)
     ctx.current_case = case
-    kind, n, N, B, neg, epochs, form = case["kind"], case["n"], case["N"], case["B"], case["neg"], case["epochs"], case["form"]
-    data, bases = case["data"], case["bases"]
+    kind, n, runs = case["kind"], case["n"], case["runs"]
     rng = random.Random(case["dseed"])
     st = make_state(kind, n, rng)
     torch.manual_seed(case["dseed"])
-    data_obj = container(data, form)
-    bases_obj = np.array(bases) if bases is not None else None
+    desc = {k: case[k] for k in case if k != "dseed"}
+    state = {"data_obj": None, "bases_obj": None, "data": None, "bases": None, "nontriv": False, "perm0": None}
+    ctx.count(f"calls_per_session={len(runs)}")
+    for r_idx, run in enumerate(runs):
+        one_call(ctx, {**case, "run": r_idx}, st, kind, run, r_idx, state)
+    r0 = runs[0]
+    ctx.case(desc, nontrivial=state["nontriv"],
+             sample={"kind": kind, "calls": len(runs), "N": r0["N"], "B": r0["B"], "neg": r0["neg"], "epochs": r0["epochs"],
+                     "form": r0["form"], "perm0": state["perm0"]})
+
+
+def caller_objects(run, state):
+    """the data / bases objects the caller passes to this call: new, the same object again, or the same object edited in place"""
+    data, bases = run["data"], run["bases"]
+    mode_d, mode_b = run.get("data_obj", "new"), run.get("bases_obj", "new")
+    prev_d, prev_b = state["data_obj"], state["bases_obj"]
+    same_shape_d = state["data"] is not None and len(state["data"]) == len(data)
+    if mode_d == "same" and prev_d is not None and state["data"] == data:
+        data_obj = prev_d
+    elif mode_d == "inplace" and prev_d is not None and same_shape_d and overwrite(prev_d, data):
+        data_obj = prev_d
+    else:
+        mode_d = "new"
+        data_obj = container(data, run["form"])
+    bases_obj = None
+    if bases is not None:
+        same_shape_b = state["bases"] is not None and len(state["bases"]) == len(bases)
+        if mode_b == "same" and prev_b is not None and state["bases"] == bases:
+            bases_obj = prev_b
+        elif mode_b == "inplace" and prev_b is not None and same_shape_b:
+            prev_b[...] = np.array(bases)
+            bases_obj = prev_b
+        else:
+            mode_b = "new"
+            bases_obj = bases_container(bases, run.get("bases_form", "c"))
+    state.update(data_obj=data_obj, bases_obj=bases_obj, data=copy.deepcopy(data), bases=copy.deepcopy(bases))
+    return data_obj, bases_obj, mode_d, mode_b
+
+
+def one_call(ctx, case, st, kind, run, r_idx, state):
+    N, B, neg, epochs, form = run["N"], run["B"], run["neg"], run["epochs"], run["form"]
+    data, bases = run["data"], run["bases"]
+    data_obj, bases_obj, mode_d, mode_b = caller_objects(run, state)
     snap_d, snap_b = snapshot(data_obj), (snapshot(bases_obj) if bases_obj is not None else None)
     rec = Recorder()
-    orig_cbg = st.compute_batch_gradients
+    orig_cbg = type(st).compute_batch_gradients.__get__(st)
     alias = []
 
     def cbg(k, samples_batch, neg_batch, bases_batch=None):
@@ -201,6 +308,7 @@ def one_fit(ctx, case):
         err = type(e).__name__
     finally:
         rec.uninstall()
+        del st.compute_batch_gradients
 
     # split the log into epochs
     eps = []
@@ -215,16 +323,20 @@ def one_fit(ctx, case):
             eps[-1]["storages"].append(en[4])
     negB_eff = neg if neg else B
     mirror = bases is None and negB_eff == B
-    desc = {k: case[k] for k in case if k != "dseed"}
-    nontriv = N >= 2 and any(ep["perm"] != sorted(ep["perm"]) for ep in eps)
-    ctx.case(desc, nontrivial=nontriv, sample={"kind": kind, "N": N, "B": B, "neg": neg, "epochs": epochs, "form": form,
-                                               "perm0": eps[0]["perm"] if eps else None})
-    for key in (f"kind={kind}", f"form={form}", f"neg={'None' if neg is None else ('B' if neg == B else ('0' if neg == 0 else 'other'))}",
+    if N >= 2 and any(ep["perm"] != sorted(ep["perm"]) for ep in eps):
+        state["nontriv"] = True
+    if state["perm0"] is None and eps:
+        state["perm0"] = eps[0]["perm"]
+    for key in (f"kind={kind}", f"form={form}",
+                f"neg={'None' if neg is None else ('B' if neg == B else ('0' if neg == 0 else ('>B' if neg > B else '<B')))}",
                 f"shape={'N<B' if N < B else ('N=mB' if N % B == 0 else 'N=mB+r')}" if B else "shape=B=0", f"epochs={epochs}",
-                f"dup_rows={len({tuple(r) for r in data}) < N}"):
+                f"dup_rows={len({tuple(r) for r in data}) < N}", f"call#{r_idx}:data_obj={mode_d}"):
         ctx.count(key)
+    if bases is not None:
+        ctx.count(f"call#{r_idx}:bases_obj={mode_b}")
+        ctx.count(f"bases_form={run.get('bases_form', 'c')}")
     sig = f"{kind}/fit"
-    expect_error = case.get("malformed")
+    expect_error = run.get("malformed")
     after_d, after_b = snapshot(data_obj), (snapshot(bases_obj) if bases_obj is not None else None)
     # ---- oracles on the implementation
     if not expect_error:
@@ -242,7 +354,7 @@ def one_fit(ctx, case):
     ctx.oracle("caller's bases unchanged", after_b == snap_b, case, sig=f"{sig}/no-mutation-bases", theorem="C07_no_mutation")
     ctx.oracle("no batch shares memory with the caller's objects", not any(alias), case, sig=f"{sig}/no-alias", theorem="C07_no_mutation")
 
-    # ---- correspondence with the model
+    # ---- correspondence with the model (fed the data of THIS call)
     if ctx.driver is None:
         return
     if expect_error:
@@ -327,7 +439,9 @@ def one_direct(ctx, case):
 
 
 # ------------------------------------------------------------------ generation
-FORMS = ["tensor_f64", "tensor_f32", "tensor_i64", "tensor_u8", "ndarray_f64", "ndarray_i64", "list"]
+FORMS = ["tensor_f64", "tensor_f32", "tensor_i64", "tensor_u8", "ndarray_f64", "ndarray_i64", "list",
+         "tensor_f64_t", "tensor_f64_strided", "tensor_i64_strided", "ndarray_f32", "ndarray_f64_fortran", "ndarray_i64_strided", "tuple"]
+BASES_FORMS = ["c", "c", "fortran", "strided"]
 
 
 def gen_data(rng, kind, n, N, force_z=True):
@@ -339,15 +453,55 @@ def gen_data(rng, kind, n, N, force_z=True):
         bases = [[rng.choice("XYZZ") for _ in range(n)] for _ in range(N)]
         if force_z:
             bases[rng.randrange(N)] = ["Z"] * n
-        elif all(all(c == "Z" for c in b) for b in bases) or True:
+        else:
             for b in bases:
                 if all(c == "Z" for c in b):
                     b[rng.randrange(n)] = rng.choice("XY")
     return data, bases
 
 
-def other_neg(rng, B):
-    return rng.choice([x for x in (1, 2, 3, 5, 7, B + 1, max(1, B - 1)) if x != B and x >= 1])
+def other_neg(rng, B, N=None):
+    cand = [1, 2, 3, 5, 7, B + 1, max(1, B - 1), 2 * B, 2 * B + 1]
+    if N is not None:
+        cand += [N, N + 1, N + 3]  # at least as large as the data set: ceil(N / neg) = 1
+    return rng.choice([x for x in cand if x != B and x >= 1])
+
+
+def gen_run(rng, kind, n, N, B, negmode):
+    neg = None if negmode == "None" else (B if negmode == "B" else other_neg(rng, B, N))
+    if negmode == "None" and rng.random() < 0.15:
+        neg = 0  # Python falsy: also selects the default
+    data, bases = gen_data(rng, kind, n, N)
+    return {"N": N, "B": B, "neg": neg, "epochs": rng.choice([1, 2, 2, 3]), "form": rng.choice(FORMS), "data": data, "bases": bases,
+            "bases_form": rng.choice(BASES_FORMS)}
+
+
+def gen_session(rng, kind, n):
+    """2..3 consecutive calls on one object: a new measurement run of the same shape with the same / an edited / a new bases
+    object, other batch sizes, sometimes another N"""
+    N = rng.randint(1, 9)
+    runs = []
+    for r in range(rng.choice([2, 2, 3])):
+        if r and rng.random() < 0.25:
+            N = rng.randint(1, 9)
+        B = rng.randint(1, N + 2)
+        run = gen_run(rng, kind, n, N, B, rng.choice(["None", "B", "other", "other"]))
+        if r:
+            prev = runs[-1]
+            same_shape = prev["N"] == N
+            run["data_obj"] = rng.choice(["new", "new", "inplace", "same"]) if same_shape else "new"
+            if run["data_obj"] == "same":  # training continued on the very same data object
+                run["data"], run["form"] = copy.deepcopy(prev["data"]), prev["form"]
+            if run["data_obj"] == "inplace":
+                run["form"] = prev["form"]
+            if kind != "pos":
+                run["bases_obj"] = rng.choice(["same", "same", "inplace", "new"]) if same_shape else "new"
+                if run["bases_obj"] == "same":  # same measurement settings (the same array object), new outcomes
+                    run["bases"], run["bases_form"] = copy.deepcopy(prev["bases"]), prev["bases_form"]
+                if run["bases_obj"] == "inplace":
+                    run["bases_form"] = prev["bases_form"]
+        runs.append(run)
+    return runs
 
 
 def gen_cases(ctx, thorough):
@@ -355,19 +509,19 @@ def gen_cases(ctx, thorough):
     if thorough:
         grid = [(N, B) for N in range(1, 13) for B in range(1, 14)]
     else:
-        grid = [(1, 1), (1, 3), (2, 5), (4, 4), (6, 3), (6, 2), (7, 3), (5, 2), (12, 13), (12, 5), (9, 4), (3, 1)]
+        grid = [(1, 1), (1, 3), (2, 5), (4, 4), (6, 3), (6, 2), (7, 3), (5, 2), (12, 13), (12, 5), (9, 4), (3, 1), (10, 3)]
         grid += [(rng.randint(1, 12), rng.randint(1, 13)) for _ in range(14)]
     for (N, B) in grid:
         for negmode in ("None", "B", "other"):
-            neg = None if negmode == "None" else (B if negmode == "B" else other_neg(rng, B))
-            if negmode == "None" and rng.random() < 0.15:
-                neg = 0  # Python falsy: also selects the default
             kinds = ["pos", "cplx", "dens"] if thorough else ["pos", rng.choice(["cplx", "dens"])]
             for kind in kinds:
                 n = rng.choice([2, 2, 3]) if kind != "dens" else 2
-                data, bases = gen_data(rng, kind, n, N)
-                yield ("fit", {"kind": kind, "n": n, "N": N, "B": B, "neg": neg, "epochs": rng.choice([1, 2, 2, 3]),
-                               "form": rng.choice(FORMS), "data": data, "bases": bases, "dseed": rng.randrange(1 << 30)})
+                yield ("fit", {"kind": kind, "n": n, "runs": [gen_run(rng, kind, n, N, B, negmode)], "dseed": rng.randrange(1 << 30)})
+    # sessions: consecutive calls on the same state object
+    for i in range(500 if thorough else 60):
+        kind = ["cplx", "dens", "pos"][i % 3] if i % 4 else rng.choice(["cplx", "dens"])
+        n = rng.choice([2, 3, 3]) if kind != "dens" else 2
+        yield ("fit", {"kind": kind, "n": n, "runs": gen_session(rng, kind, n), "dseed": rng.randrange(1 << 30)})
     # direct calls with arbitrary num_batches (zip truncation) + extract_refbasis
     for _ in range(120 if thorough else 30):
         kind = rng.choice(["pos", "cplx", "dens"])
@@ -377,21 +531,24 @@ def gen_cases(ctx, thorough):
         nb = max(0, -(-N // B) + rng.choice([-2, -1, 0, 0, 1, 2]))
         yield ("direct", {"kind": kind, "n": n, "N": N, "B": B, "negB": negB, "nb": nb, "data": data, "bases": bases,
                           "dseed": rng.randrange(1 << 30)})
-    # malformed stream
+    # malformed stream (alone, and as the second call after a well-formed one on the same object)
     for _ in range(12 if thorough else 4):
         kind = rng.choice(["pos", "cplx", "dens"])
         N = rng.randint(1, 6)
         data, bases = gen_data(rng, kind, 2, N)
-        yield ("fit", {"kind": kind, "n": 2, "N": N, "B": 0, "neg": None, "epochs": 1, "form": rng.choice(FORMS), "data": data,
-                       "bases": bases, "malformed": "B=0", "dseed": rng.randrange(1 << 30)})
+        yield ("fit", {"kind": kind, "n": 2, "dseed": rng.randrange(1 << 30), "runs": [
+            {"N": N, "B": 0, "neg": None, "epochs": 1, "form": rng.choice(FORMS), "data": data, "bases": bases, "malformed": "B=0"}]})
         kind = rng.choice(["cplx", "dens"])
+        good = gen_run(rng, kind, 2, N, rng.randint(1, 4), "None")
         data, bases = gen_data(rng, kind, 2, N, force_z=False)
-        yield ("fit", {"kind": kind, "n": 2, "N": N, "B": rng.randint(1, 4), "neg": None, "epochs": 1, "form": rng.choice(FORMS),
-                       "data": data, "bases": bases, "malformed": "no-Z-row", "dseed": rng.randrange(1 << 30)})
+        bad = {"N": N, "B": rng.randint(1, 4), "neg": None, "epochs": 1, "form": rng.choice(FORMS), "data": data, "bases": bases,
+               "malformed": "no-Z-row", "bases_obj": rng.choice(["new", "inplace"])}
+        yield ("fit", {"kind": kind, "n": 2, "dseed": rng.randrange(1 << 30), "runs": rng.choice([[bad], [good, bad]])})
         data, bases = gen_data(rng, kind, 2, N)
         bases = bases + [["Z", "Z"]]
-        yield ("fit", {"kind": kind, "n": 2, "N": N, "B": rng.randint(1, 4), "neg": None, "epochs": 1, "form": rng.choice(FORMS),
-                       "data": data, "bases": bases, "malformed": "bases-too-long", "dseed": rng.randrange(1 << 30)})
+        yield ("fit", {"kind": kind, "n": 2, "dseed": rng.randrange(1 << 30), "runs": [
+            {"N": N, "B": rng.randint(1, 4), "neg": None, "epochs": 1, "form": rng.choice(FORMS), "data": data, "bases": bases,
+             "malformed": "bases-too-long"}]})
 
 
 def run(ctx):
@@ -412,5 +569,5 @@ def search(ctx):
 
 
 def replay(ctx, case):
-    case = {k: v for k, v in case.items() if k != "epoch"}
+    case = {k: v for k, v in case.items() if k not in ("epoch", "run")}
     (one_fit if case.get("what", "fit") == "fit" else one_direct)(ctx, case)
